@@ -34,7 +34,12 @@ fn status_token(rng: &mut Rng) -> (String, Ret) {
 }
 
 pub fn gen_req(rng: &mut Rng, keep: bool, noise_level: u64, mc: usize, bufsize: usize, allow_handler_err: bool) -> ReqPlan {
-    let id = rng.range(1, 65535) as u16;
+    // the requests of one connection get distinct ids (the low nibble counts gen_req calls) below 0x4000; foreign-id noise stays
+    // at or above 0x4000 (gen::FOREIGN_MIN), so no reply can be attributed to the wrong request of the connection
+    static SEQ: std::sync::atomic::AtomicUsize = std::sync::atomic::AtomicUsize::new(0);
+    crate::gen::FOREIGN_MIN.store(0x4000, std::sync::atomic::Ordering::Relaxed);
+    let seq = SEQ.fetch_add(1, std::sync::atomic::Ordering::Relaxed);
+    let id = (((1 + rng.below(0x3fe)) as u16) << 4) | (seq % 16) as u16;
     let role = rng.range(1, 3) as u16;
     let flags = (rng.next() as u8 & 0xfe) | keep as u8;
     let pairs: Vec<(Vec<u8>, Vec<u8>)> = gen_pairs(rng, false).into_iter().filter(|(n, v)| n.len() + v.len() + 13 <= bufsize).collect();
@@ -452,7 +457,7 @@ pub fn run_c12(ctx: &mut Ctx) {
     let mut log = Log::new(&ctx.dir);
     let mut im = Impl::new();
     let mut or = Oracle::new("C12",
-        "for each scripted connection (1..2 requests, C07 handler family incl. propagating and ignoring handlers): EOF injected at every byte offset 0..N of the input (quick: strided + all record boundaries ±1), a read error at every read-call index, a write error and a zero-length write at every write-call index, \
+        "for each scripted connection (1..2 requests, C07 handler family incl. propagating and ignoring handlers): EOF injected at every byte offset 0..N of the input (thorough, connections up to 700 wire bytes; otherwise strided + all record boundaries -1,0,+1,+8), a read error at every read-call index, a write error and a zero-length write at every write-call index, \
          combined with the C07 read/write chunking patterns. Oracle: the task returns (never panics, stalls or spins); no handler for an incomplete preamble; no successful short read-to-end; nothing accepted after a failed write for a propagating handler; the log is a prefix of a record sequence. Non-trivial: all; distinct by (connection, fault)");
     let mut rng = ctx.rng.fork();
     let thorough = ctx.tier_thorough || ctx.widen;
@@ -478,7 +483,7 @@ pub fn run_c12(ctx: &mut Ctx) {
             }
         }
     }
-    for ci in 0..ctx.n(25, 300) {
+    for ci in 0..ctx.n(25, 120) {
         let k = 1 + rng.usize_below(2);
         let mc = 1 + rng.usize_below(50);
         let b = *rng.pick(&[128usize, 1024]);
@@ -498,7 +503,7 @@ pub fn run_c12(ctx: &mut Ctx) {
         for p in &plans { let pl: usize = p.recs[..p.pre_len].iter().map(|r| r.ser().len()).sum(); pre_ends.push(off + pl); off += ser_all(&p.recs).len(); }
         let mut faults: Vec<(String, String)> = vec![];   // (kind, op)
         // EOF at byte offsets
-        let mut offs: Vec<usize> = if thorough { (0..=wire.len()).collect() } else { let mut v: Vec<usize> = (0..=wire.len()).step_by(7.max(wire.len() / 40)).collect(); let mut p = 0; for pl in &plans { for r in &pl.recs { p += r.ser().len(); v.extend([p.saturating_sub(1), p, (p + 1).min(wire.len()), (p + 8).min(wire.len())]); } } v.sort(); v.dedup(); v };
+        let mut offs: Vec<usize> = if thorough && wire.len() <= 700 { (0..=wire.len()).collect() } else { let mut v: Vec<usize> = (0..=wire.len()).step_by(7.max(wire.len() / 40)).collect(); let mut p = 0; for pl in &plans { for r in &pl.recs { p += r.ser().len(); v.extend([p.saturating_sub(1), p, (p + 1).min(wire.len()), (p + 8).min(wire.len())]); } } v.sort(); v.dedup(); v };
         offs.retain(|&o| o <= wire.len());
         for o in offs { faults.push((format!("eof@{o}"), format!("t.run B={b} mc={mc} in={} end=eof rd={rd} wr={wr} fl=- stop=none h={hs}", hexd(&wire[..o])))); }
         // hostile bytes instead of a fault of the transport: the version byte of one record header is not 1 (UnknownVersion is
